@@ -174,9 +174,18 @@ def r1_explicit_raises(ctx):
         raise AnalysisError('only %d escaping raise sites found: call graph resolution broke' % len(sites))
     used_data = set()
     km = KeyMaker()
+    # functions a refactoring added that are still there after the normal form (methods of new classes, generators ...): calls
+    # through them are resolved by method name only, which can connect a driver to raise sites it never reaches - an
+    # unclassified site is then no verdict
+    from ..normalize import baseline_funcs
+    new_reach = sorted(k for k in reach if ':' in k and k.split(':', 1)[1] not in (baseline_funcs().get(k.split(':', 1)[0]) or {k.split(':', 1)[1]}))
+    undecided = []
     for site in sorted(sites):
         cls, loc, ents = sites[site]
         cat, why = _classify(site)
+        if cat is None and new_reach:
+            undecided.append(site)
+            continue
         if cat is None:
             yield Ob(km(site), False, loc, '%s can escape %s and is neither a documented refusal nor classified: a new way for validation '
                      'to abort' % (cls, ', '.join(sorted(ents))))
@@ -184,6 +193,9 @@ def r1_explicit_raises(ctx):
         if cat.startswith('DATA:'):
             used_data.add(cat[5:])
         yield Ob(km(site), True, loc, note='%s: %s' % (cat, why))
+    if undecided:
+        raise AnalysisError('%d raise site(s) reachable only through functions the reference does not know (%s ...) cannot be classified: %s'
+                            % (len(undecided), ', '.join(new_reach[:3]), ', '.join(undecided[:2])))
     for kind in sorted(used_data):
         fails = _data_discharge(ctx, kind)
         yield Ob('data discharge [%s] holds' % kind, not fails or kind == 'dataele', 'pyx12/map',
